@@ -19,8 +19,18 @@ sys.path.insert(0, os.path.dirname(os.path.abspath(__file__)))
 import common
 from common import fstr
 import gen_netlist
+from translate import tx_stamps
 
 warnings.filterwarnings('ignore')
+
+# class of mnacpts.py -> the directed families in which its `_stamp` certainly runs (used to concentrate the
+# failing-input search when a theorem of Props/C01Stamps.lean about that class breaks)
+CLASS_DIRECTED = {
+    'AM': ['AM', 'Hamm'], 'RC': ['Cic', 'HR', 'HC', 'Ipar'], 'VCVS': ['E', 'Eac', 'Eopamp', 'EopampRo'], 'CCCS': ['F'],
+    'VCCS': ['G'], 'GY': ['GY'], 'CCVS': ['H', 'Hamm', 'HL', 'HR', 'HC'], 'I': ['I', 'Ipar'], 'K': ['K', 'Kic1', 'Kic2', 'Kfirst'],
+    'L': ['Lic', 'HL', 'K', 'Kfirst'], 'SPpp': ['SPpp'], 'SPpm': ['SPpm'], 'SPppp': ['SPppp'], 'SPpmm': ['SPpmm'], 'SPppm': ['SPppm'],
+    'TF': ['TF'], 'TPA': ['TPA', 'TPB', 'TPG', 'TPH', 'TL'], 'TPY': ['TPY', 'TPZ'], 'TR': ['TR'], 'V': ['F', 'H', 'AM'],
+}
 
 SOLVERS = ['DM', 'LU', 'GE', 'ADJ', 'GJ', 'QR', 'CRAMER']
 
@@ -94,8 +104,10 @@ def model_entries(rep, node_map):
     ea, ez = {}, {}
     mode = None
     for t in rep.split()[1:]:
-        if t in ('A', 'Z'):
+        if t in ('A', 'Z', 'U'):
             mode = t
+            continue
+        if mode == 'U':
             continue
         k, v = t.rsplit('=', 1)
         if mode == 'A':
@@ -181,6 +193,47 @@ class Lc:
         return out
 
 
+def expansion_of(L, lines):
+    """Lcapy's `Netlist.expand()` of the netlist: [(name, class, nodes, args)] of the components it created (`X__name`),
+    internal nodes renamed by order of first appearance, arguments as exact rationals"""
+    S = L.sympy
+    net = L.lcapy.Circuit('\n'.join(lines)).expand()
+    anon = {}
+    out = []
+    for e in net.elements.values():
+        if '__' not in e.name:
+            continue
+        nodes = []
+        for nn in e.node_names:
+            nn = str(nn)
+            if nn.startswith('_nodeanon'):
+                nn = anon.setdefault(nn, '_anon%d' % len(anon))
+            nodes.append(nn)
+        args = []
+        for a in e.args:
+            v = S.sympify(str(a).strip('{}'))
+            args.append(Fraction(int(v.p), int(v.q)) if v.is_Rational else str(v))
+        out.append((str(e.name), type(e).__name__, nodes, args))
+    return out
+
+
+def model_expansion(rep):
+    """`ok name|type|nodes|args ...` of the model's one round of `_expand`, same canonical form"""
+    anon = {}
+    out = []
+    for t in rep.split()[1:]:
+        name, ty, nodes, args = t.split('|')
+        if '__' not in name:
+            continue
+        ns = []
+        for nn in nodes.split(','):
+            if nn.startswith('_nodeanon'):
+                nn = anon.setdefault(nn, '_anon%d' % len(anon))
+            ns.append(nn)
+        out.append((name, ty, ns, [Fraction(a.strip('{}')) for a in args.split(',') if a != '']))
+    return out
+
+
 def sign_for(convention, is_source):
     """reported = sign * (current into the first node), per lcapy/current.py and doc/overview.rst"""
     if (convention == 'hybrid' and is_source) or convention == 'active':
@@ -188,13 +241,60 @@ def sign_for(convention, is_source):
     return 1
 
 
+def run_translator(chk):
+    """static second tie: regenerate lean/Lcapy/Generated/Stamps.lean from the current source text of mnacpts.py"""
+    try:
+        info = tx_stamps.write(common.REPO)
+    except (OSError, SyntaxError) as e:
+        raise common.Infra('tx_stamps cannot read %s/lcapy/mnacpts.py: %s' % (common.REPO, e))
+    chk.coverage['translator'] = {
+        'name': 'tx_stamps', 'source': info['source'], 'status': 'ok' if not info['unparsed'] else 'partly-unparsed',
+        'classes_parsed': info['parsed'], 'unparsed': info['unparsed'], 'matrix_updates_read': info['entries'],
+        'all_accumulate': info['all_accumulate'], 'assignments': info['assignments'],
+        'guards_ok': info['guards_ok'], 'guard_issues': info['guard_issues'] + info['sort_issues'],
+        'preconditions': info['preconditions'], 'delegations': ['%s->%s' % tuple(d) for d in info['delegations']],
+        'generated_file_changed': info['changed']}
+    for u in info['unparsed']:
+        chk.count('translator-unparsed', u.split(':')[0])
+    chk.count('translator', 'classes-parsed', len(info['parsed']))
+    return info
+
+
+def focus_classes(broken, txinfo):
+    """classes of mnacpts.py named by the broken obligations of Props/C01Stamps.lean"""
+    out = []
+    for b in broken:
+        if 'C01Stamps.lean:' not in b:
+            continue
+        th = b.split(':', 1)[1]
+        if th.startswith('stamp_'):
+            cl = th[len('stamp_'):].split('_')[0]
+            out.append(cl)
+        elif th == 'all_accumulate':
+            out += [a.split(' ')[0] for a in txinfo['assignments']]
+        elif th == 'guards_ok':
+            out += [a.split(' ')[0] for a in txinfo['guard_issues'] + txinfo['sort_issues']]
+    return [c for i, c in enumerate(out) if c in CLASS_DIRECTED and c not in out[:i]]
+
+
 def run(chk, replay=None):
-    broken = chk.lean(['Lcapy/Props/C01.lean', 'Lcapy/Props/C01TwoPort.lean'],
-                      helper_files=['Lcapy/Proofs/MNA.lean', 'Lcapy/Model/MNA.lean', 'Lcapy/Model/Netlist.lean',
+    import time as _time
+    t_start = _time.time()
+    txinfo = run_translator(chk)
+    broken = chk.lean(['Lcapy/Props/C01.lean', 'Lcapy/Props/C01TwoPort.lean', 'Lcapy/Props/C01Stamps.lean',
+                       'Lcapy/Props/C01Glue.lean'],
+                      helper_files=['Lcapy/Proofs/MNA.lean', 'Lcapy/Proofs/MNAStamps.lean', 'Lcapy/Proofs/Alloc.lean',
+                                    'Lcapy/Model/MNA.lean', 'Lcapy/Model/Alloc.lean',
+                                    'Lcapy/Model/Netlist.lean', 'Lcapy/Generated/Stamps.lean',
                                     'Lcapy/Spec/Laws.lean', 'Lcapy/Spec/LawsExec.lean', 'Lcapy/Model/GQ.lean'],
                       leanchecker=(chk.tier == 'thorough'))
+    focus = focus_classes(broken, txinfo)
+    chk.coverage['translator']['obligations_broken'] = [b for b in broken if 'C01Stamps.lean:' in b]
+    chk.coverage['translator']['focus_classes'] = focus
+    chk.coverage['timing'] = {'lean_s': round(_time.time() - t_start, 1)}
     drv = chk.get_driver()
     L = Lc()
+    chk.coverage['timing']['import_s'] = round(_time.time() - t_start, 1)
     rng = chk.rng
     quick = chk.tier == 'quick'
     ncases = 60 if quick else 700
@@ -226,6 +326,8 @@ def run(chk, replay=None):
             c['omega'] = Fraction(c['omega'])
             replay_cases.append((c, Fraction(rc['spoint']) if rc.get('spoint') else None))
 
+    state = {'stream': 'replay', 'solver_idx': 0}
+
     def one(case, spoint, idx):
         nonlocal n_cex
         a = case['analysis']
@@ -248,10 +350,27 @@ def run(chk, replay=None):
         model = parse_reply(rep) if rep.startswith('ok') else None
         conv = 'passive'
         solver = 'DM'
+        if any(kw in body for kw in (' opamp ', ' fdopamp ', ' inamp ')):
+            # the `_expand` methods (Eopamp, Efdopamp, Einamp): one round of expansion, component by component
+            erep = drv.ask1('mna.expand dc || %s' % body)
+            if erep.startswith('ok'):
+                try:
+                    with common.time_limit(30):
+                        le_ = expansion_of(L, case['lines'])
+                    chk.count('expand', 'compared')
+                    chk.coverage['correspondence']['compared'] += 1
+                    me_ = model_expansion(erep)
+                    if le_ != me_:
+                        chk.coverage['correspondence']['disagreements'] += 1
+                        disagreements.append({'case': jcase, 'expand': {'lcapy': str(le_), 'model': str(me_)}})
+                except common.TimeLimit:
+                    chk.count('expand', 'time-limit')
+                except Exception as e:   # noqa
+                    chk.count('expand', 'lcapy-error:' + type(e).__name__)
 
         def compare_matrix(mat):
             # stamp-level correspondence: the assembled A and Z, entry by entry, whether or not the system is solvable
-            if ' opamp ' in body or mat is None:
+            if ' opamp ' in body or ' fdopamp ' in body or ' inamp ' in body or mat is None:
                 return
             mrep = drv.ask1('mna.matrix %s || %s' % (an, body))
             if not mrep.startswith('ok'):
@@ -264,6 +383,15 @@ def run(chk, replay=None):
             ma, mz = model_entries(mrep, node_map)
             chk.count('matrix', 'compared')
             chk.coverage['correspondence']['compared'] += 1
+            # allocation of the unknown branch currents (MNA.__init__ vs Netlist.alloc): same names, same order
+            urep = drv.ask1('mna.alloc %s || %s' % (an, body))
+            mu = urep.split()[2:] if urep.startswith('ok U') else None
+            if mu is not None:
+                chk.count('alloc', 'compared')
+                if mu != list(mat[3]):
+                    chk.coverage['correspondence']['disagreements'] += 1
+                    disagreements.append({'case': jcase, 'spoint': fstr(spoint) if spoint is not None else None,
+                                          'unknown_branch_currents': {'lcapy': list(mat[3]), 'model': mu}})
             if la != ma or lz != mz:
                 chk.coverage['correspondence']['disagreements'] += 1
                 da = sorted(str(k_) for k_ in set(la) ^ set(ma)) + sorted('%s: lcapy %s model %s' % (k_, la[k_], ma[k_]) for k_ in set(la) & set(ma) if la[k_] != ma[k_])
@@ -346,13 +474,27 @@ def run(chk, replay=None):
                 sg = sign_for(conv, got['is_source'].get(n, False))
                 if n in model['J'] and model['J'][n] != (sg * v[0], sg * v[1]):
                     diffs.append(('J', n, v, model['J'][n]))
+            # currents that are not unknowns: Lcapy's `_Idict` against the model of the reconstruction in `_solve`
+            for n, v in got['I'].items():
+                if n in model['I']:
+                    chk.count('reported', n[0])
+                    sg = sign_for(conv, got['is_source'].get(n, False))
+                    if model['I'][n] != (sg * v[0], sg * v[1]):
+                        diffs.append(('I', n, v, model['I'][n]))
             missing = [n for n in model['V'] if n not in got['V']] + [n for n in got['V'] if n not in model['V']]
             if diffs or missing:
                 chk.coverage['correspondence']['disagreements'] += 1
                 disagreements.append({'case': jcase, 'spoint': fstr(spoint) if spoint is not None else None,
                                       'diffs': [str(d) for d in diffs[:4]], 'missing': missing})
         # ---- solver independence (oracle on the real code)
-        other = SOLVERS[1 + idx % (len(SOLVERS) - 1)] if quick else None
+        # quick: one rotating method per case; in the directed stream on every second case only (the second analysis
+        # doubles the cost of a case), the rotation advancing only when a method is actually run
+        if quick and state['stream'] == 'directed' and idx % 2 == 1 and not (replay and forced.get('solver')):
+            L.state.current_sign_convention = 'passive'
+            return
+        sidx = state['solver_idx']
+        state['solver_idx'] += 1
+        other = SOLVERS[1 + sidx % (len(SOLVERS) - 1)] if quick else None
         if replay and forced.get('solver'):
             other = forced['solver']
         if quick or (replay and forced.get('solver')):
@@ -370,7 +512,7 @@ def run(chk, replay=None):
                                            for ml, ll in zip(case['lines'], case['lcapy'])])
         for sm in sms:
             try:
-                with common.time_limit(5 if quick else 10):
+                with common.time_limit(4 if quick else 10):
                     got2 = L.analyse(ncase, spoint, sm, conv)
             except common.TimeLimit:
                 chk.count('solver-error', '%s:time-limit' % sm)
@@ -395,6 +537,18 @@ def run(chk, replay=None):
         one(case, spoint, idx)
         idx += 1
     if not replay:
+        state['stream'] = 'directed'
+        # a broken theorem about the stamp of a class: search first, and harder, in the directed families of that class
+        for cl in focus:
+            for kind in CLASS_DIRECTED[cl]:
+                for j in range(8 if quick else 24):
+                    case = gen_netlist.directed_case(rng, kind, floating=(j % 2 == 0))
+                    spoint = Fraction(rng.randint(1, 12), rng.randint(1, 5)) if case['analysis'] in ('s', 'ivp') else None
+                    chk.count('directed-focus', kind)
+                    one(case, spoint, idx)
+                    idx += 1
+                if n_cex:
+                    break
         # directed stream: every component kind certainly present, terminals off ground, both orientations
         ndirected = 3 if quick else 16
         for kind in gen_netlist.DIRECTED_KINDS:
@@ -404,6 +558,8 @@ def run(chk, replay=None):
                 chk.count('directed', kind)
                 one(case, spoint, idx)
                 idx += 1
+        chk.coverage['timing']['directed_s'] = round(_time.time() - t_start, 1)
+        state['stream'] = 'random'
         for k in range(ncases):
             case = gen_netlist.random_case(rng, max_nodes=max_nodes, ext=True)
             spoint = None
@@ -495,8 +651,10 @@ def run(chk, replay=None):
                 chk.count('oracle', 'tone-laws-ok')
 
     if not replay:
+        chk.coverage['timing']['random_s'] = round(_time.time() - t_start, 1)
         for k in range(8 if quick else 80):
             tone(k)
+        chk.coverage['timing']['tone_s'] = round(_time.time() - t_start, 1)
 
     chk.coverage['correspondence']['samples_of_disagreement'] = disagreements[:5]
     if broken and n_cex == 0:
